@@ -38,6 +38,12 @@ type hist struct {
 	log       []string
 	id        string
 	mu        sync.Mutex
+	// asynchrony of the real node: block-complete events reach the validator/pool through an
+	// actor mailbox (late), and a transaction verified at height h may enter the pool after
+	// later blocks were committed
+	lateBlocks []*types.Block
+	inflight   []*tc.VerifiedTx
+	async      *vf.RNG
 }
 
 func (h *hist) note(f string, a ...interface{}) {
@@ -86,6 +92,20 @@ func (h *hist) submit(tx *types.Transaction, reverify bool) errors.ErrCode {
 		nonce = acct.Nonce
 	}
 	entry := &tc.VerifiedTx{Tx: tx, VerifiedHeight: h.c.Ledger.GetCurrentBlockHeight(), Nonce: nonce}
+	if !reverify && h.async != nil && h.async.Chance(20) {
+		h.mu.Lock()
+		h.inflight = append(h.inflight, entry)
+		h.mu.Unlock()
+		h.r.Count("submission_in_flight_across_steps")
+		h.note("verified (height %d) but not yet in pool: %s nonce=%d", entry.VerifiedHeight, tx.Payer.ToHexString()[:8], tx.Nonce)
+		return errors.ErrNoError
+	}
+	return h.insert(entry)
+}
+
+// insert is movePendingTxToPool -> AddTxList.
+func (h *hist) insert(entry *tc.VerifiedTx) errors.ErrCode {
+	tx := entry.Tx
 	h.mu.Lock()
 	old := h.byNonce[key(tx.Payer, tx.Nonce)]
 	h.mu.Unlock()
@@ -112,6 +132,30 @@ func (h *hist) submit(tx *types.Transaction, reverify bool) errors.ErrCode {
 	return code
 }
 
+// deliver hands late block-complete events and in-flight verified transactions over.
+func (h *hist) deliver(all bool) {
+	for len(h.lateBlocks) > 0 && (all || h.async.Chance(50)) {
+		b := h.lateBlocks[0]
+		h.lateBlocks = h.lateBlocks[1:]
+		h.iv.AddBlock(b)
+		h.pool.CleanCompletedTransactionList(b.Transactions, b.Header.Height)
+		h.note("block-complete event for height %d delivered", b.Header.Height)
+	}
+	h.mu.Lock()
+	fl := h.inflight
+	h.inflight = nil
+	h.mu.Unlock()
+	for _, e := range fl {
+		if all || h.async.Chance(60) {
+			h.insert(e)
+		} else {
+			h.mu.Lock()
+			h.inflight = append(h.inflight, e)
+			h.mu.Unlock()
+		}
+	}
+}
+
 // propose is consensus/solo.makeBlock's selection.
 func (h *hist) propose() []*types.Transaction {
 	height := h.c.Ledger.GetCurrentBlockHeight()
@@ -121,6 +165,9 @@ func (h *hist) propose() []*types.Transaction {
 		validHeight = start
 	} else {
 		h.iv.Clean()
+		if end != 0 {
+			h.r.Count("validator_resynchronised(Clean)")
+		}
 	}
 	entries, expired := h.pool.GetTxPool(true, validHeight)
 	for _, t := range expired {
@@ -209,9 +256,15 @@ func (h *hist) proposeAndCommit() bool {
 			h.mu.Unlock()
 		}
 	}
-	// what the node does on TOPIC_SAVE_BLOCK_COMPLETE
-	h.iv.AddBlock(b)
-	h.pool.CleanCompletedTransactionList(b.Transactions, b.Header.Height)
+	// what the node does on TOPIC_SAVE_BLOCK_COMPLETE (possibly late: it travels through actor mailboxes)
+	if h.async != nil && h.async.Chance(35) {
+		h.lateBlocks = append(h.lateBlocks, b)
+		h.r.Count("block_complete_event_delayed")
+	} else {
+		h.deliver(true)
+		h.iv.AddBlock(b)
+		h.pool.CleanCompletedTransactionList(b.Transactions, b.Header.Height)
+	}
 	h.mu.Lock()
 	for k, t := range h.byNonce { // Forward() drops everything below the committed nonces
 		for _, s := range h.senders {
@@ -270,11 +323,17 @@ func main() {
 		config.DefConfig.Consensus.MaxTxInBlock = []uint{3, 5, 60000}[sub.Intn(3)]
 		h := &hist{r: r, c: c, w: w, pool: tc.NewTxPool(), iv: increment.NewIncrementValidator(window), senders: w.Eth,
 			committed: committed, replaced: map[common.Uint256]string{}, byNonce: map[string]*types.Transaction{}, id: fmt.Sprintf("h%d", hi)}
-		h.note("window=%d maxTxInBlock=%d", window, config.DefConfig.Consensus.MaxTxInBlock)
+		if hi%2 == 1 {
+			h.async = sub.Sub(424242)
+		}
+		h.note("window=%d maxTxInBlock=%d async=%v", window, config.DefConfig.Consensus.MaxTxInBlock, h.async != nil)
 		steps := 30 + sub.Intn(25)
 		concurrent := vf.Thorough() && hi%5 == 0
 		for st := 0; st < steps; st++ {
 			ss := sub.Sub(uint64(st))
+			if h.async != nil {
+				h.deliver(false)
+			}
 			switch k := ss.Intn(10); {
 			case k < 6: // EVM submissions (a burst)
 				burst := 1 + ss.Intn(4)
@@ -323,6 +382,17 @@ func main() {
 						panic(err)
 					}
 					r.Count("submit/" + cls)
+					if h.async != nil && ss.Chance(30) {
+						// a competing transaction for the same (sender, nonce) whose verification is still in flight
+						twin, err := chain.EvmTx(s, nonce, &dst, big.NewInt(int64(ss.Intn(1000)+2000)), 30000, price*103/100+1, nil)
+						if err == nil && h.ledgerNonce(s) <= nonce {
+							acctNonce := h.ledgerNonce(s)
+							h.mu.Lock()
+							h.inflight = append(h.inflight, &tc.VerifiedTx{Tx: twin, VerifiedHeight: h.c.Ledger.GetCurrentBlockHeight(), Nonce: acctNonce})
+							h.mu.Unlock()
+							r.Count("competing_twin_in_flight")
+						}
+					}
 					if concurrent {
 						wg.Add(1)
 						go func() { defer wg.Done(); h.submit(tx, false) }()
@@ -333,8 +403,8 @@ func main() {
 				wg.Wait()
 			case k < 7: // native traffic and an exact duplicate submission
 				t, _ := w.TB.TransferTx("ong", w.Accts[0], w.Accts[1].Address, 1, 2500, 20000)
-				h.submit(t, false)
-				if code := h.submit(t, false); code == errors.ErrNoError {
+				h.submit(t, true) // (true: inserted at once, not held in flight, so the second submission really is a duplicate)
+				if code := h.submit(t, true); code == errors.ErrNoError {
 					r.Violation("duplicate-submission-accepted", t.Hash().ToHexString(), h.witness(nil))
 				}
 			default:
@@ -346,6 +416,9 @@ func main() {
 		}
 		// drain: a few more proposals so that queued runs get proposed
 		for i := 0; i < 3; i++ {
+			if h.async != nil {
+				h.deliver(true)
+			}
 			h.proposeAndCommit()
 		}
 		if hi < 2 {
@@ -360,6 +433,9 @@ func main() {
 	r.Require("filtered_by_increment_validator", 5)
 	r.Require("submit/gap", 10)
 	r.Require("door/stale-nonce", 5)
+	r.Require("block_complete_event_delayed", 5)
+	r.Require("submission_in_flight_across_steps", 5)
+	r.Require("validator_resynchronised(Clean)", 3)
 	if racelog.Enabled {
 		racelog.Apply(r, "txnpool/common/", "validator/increment/")
 	}
